@@ -105,8 +105,11 @@ def toric2d_tie(rep, work, recs):
                 r['size'][0], r['size'][1], pl(r['qubits']), pl(r['stab_coords']), sup,
                 ('logicals_match %d %d %s' % (r['size'][0], r['size'][1], ' '.join(lg))) if len(lg) == 4 else 'false'))
         elif r['cls'] in ('Toric3DCode', 'Planar3DCode'):
-            lines.append('Eval vm_compute in ' + r['cls'][:-4] + '.table_matches %d %d %d %s %s %s.\n' % (
-                r['size'][0], r['size'][1], r['size'][2], pl(r['qubits']), pl(r['stab_coords']), sup))
+            extra = ''
+            if r['cls'] == 'Toric3DCode':
+                extra = (' && Toric3D.logicals_match %d %d %d %s' % (r['size'][0], r['size'][1], r['size'][2], ' '.join(lg))) if len(lg) == 6 else ' && false'
+            lines.append('Eval vm_compute in ' + r['cls'][:-4] + '.table_matches %d %d %d %s %s %s%s.\n' % (
+                r['size'][0], r['size'][1], r['size'][2], pl(r['qubits']), pl(r['stab_coords']), sup, extra))
         else:
             lines.append('Eval vm_compute in ' + r['cls'][:-4] + '.table_matches %d %d %s %s %s.\n' % (
                 r['size'][0], r['size'][1], pl(r['qubits']), pl(r['stab_coords']), sup))
